@@ -1013,6 +1013,54 @@ def rule_r11(ctx):
                     r.ob(f, "%s.%s: nothing the fini slot owns is released" % (g["name"], i_slot))
 
 
+# ---------------------------------------------------------------------------
+# R12: a resize that fails leaves the container as it was
+
+RESIZERS = (("id_resize", "core/idhash.c"), ("nni_lmq_resize", "core/lmq.c"), ("nni_msgq_resize", "core/msgqueue.c"),
+            ("nni_chunk_grow", "core/message.c"))
+
+
+def rule_r12(ctx):
+    from .. import guards as G
+    r = ctx.rule("C20.R12", "T3", "failure atomicity of container growth: in the functions that re-allocate a live container (id map, "
+                 "lmq, msgq, chunk) no field of the container is changed before the allocation has succeeded -- the NNG_ENOMEM "
+                 "return leaves a container whose thresholds, capacity and storage still agree", floor=4)
+    prog = ctx.prog
+    for name, file in RESIZERS:
+        f = prog.need(name, file)
+        params = {p_["n"] for p_ in f.params}
+        allocs = [c for c in f.calls(("nni_alloc", "nni_zalloc"))]
+        if not allocs:
+            raise AnalysisBroken("%s: allocation vanished" % name)
+        for a in allocs:
+            ve = f.value_edges(a)
+            fails = []
+            for b, (nz, z) in ve.items():
+                tgt = f.blocks[b].succs[z]
+                if tgt is not None:
+                    fails.append((tgt, 0))
+            if not fails:
+                ctx.fail(r, f, "allocation result not tested", a.line, "the result of %s is not tested" % a.node["fn"])
+                continue
+            bad = None
+            for t in f.assigns():
+                lhs = t.node["lhs"]
+                root = lhs
+                while root is not None and root.get("k") in ("mem", "idx"):
+                    root = root["b"]
+                if lhs.get("k") not in ("mem",) or root is None or root.get("k") != "var" or root["n"] not in params:
+                    continue
+                if (a.b, a.i) in f.reach((t.b, t.i + 1)):
+                    bad = t
+            if bad is not None:
+                ctx.fail(r, f, "%s changed before the allocation is known to succeed" % show(bad.node["lhs"]), bad.line,
+                         "%s stores to %s at line %s and only then allocates (line %s): when the allocation fails the function "
+                         "returns NNG_ENOMEM with the container half updated (new thresholds / size with the old storage), and "
+                         "later operations index or probe it wrongly" % (name, show(bad.node["lhs"]), bad.line, a.line))
+            else:
+                r.ob(f, "%s line %s: nothing of the container is changed before it" % (a.node["fn"], a.line))
+
+
 def run(ctx):
     ctx.guard(rule_r1)
     ctx.guard(rule_r2)
@@ -1023,3 +1071,4 @@ def run(ctx):
     ctx.guard(rule_r9)
     ctx.guard(rule_r10)
     ctx.guard(rule_r11)
+    ctx.guard(rule_r12)
